@@ -62,7 +62,7 @@ def check_object_histories(ctx, cuqi, rng, nobj):
                          "ts": lambda: "ts:" + (qv(v) if len(v) else ""), "f": lambda: "f:" + qv(v)}[k]())
         lines.append(f"hist {n} {method0} {dk} {qv(ts0)} {base.fam_tokens(F)} {npar} {'|'.join(toks)}")
         objs.append(dict(n=n, F=F, npar=npar, skind=skind, solver=solver, kwargs=kwargs, method0=method0, ts0=ts0, ops=ops, flavour=flavour))
-    outs = ctx.lean.drive(lines)
+    outs = yield lines
     for ob, out, line in zip(objs, outs, lines):
         if out == "bad-op":
             raise RuntimeError("C18 history driver line not understood: " + line[:300])
